@@ -59,6 +59,18 @@ Proof.
   rewrite IH. destruct (p a); cbn [negb existsb]; btauto.
 Qed.
 
+Lemma existsb_ext_eq {A} (f g : A -> bool) l : (forall a, f a = g a) -> existsb f l = existsb g l.
+Proof. intros H. induction l as [|a l IH]; cbn [existsb]; [reflexivity|]. rewrite H, IH. reflexivity. Qed.
+
+Lemma existsb_swap {A B} (f : A -> B -> bool) (la : list A) (lb : list B) :
+  existsb (fun a => existsb (f a) lb) la = existsb (fun b => existsb (fun a => f a b) la) lb.
+Proof.
+  induction la as [|a la IH]; cbn [existsb].
+  - induction lb as [|b lb IHb]; cbn [existsb]; [reflexivity|exact IHb].
+  - rewrite IH. clear IH. induction lb as [|b lb IHb]; cbn [existsb]; [reflexivity|].
+    rewrite <- IHb. btauto.
+Qed.
+
 (* ---------- the file-type map without duplicate keys is the list itself ---------- *)
 
 Lemma ft_remove_absent k m :
@@ -158,7 +170,8 @@ Section Law.
   Notation pm := (pat_match re_ok re_match).
   Notation is_ign := (is_ignore_error_file re_ok re_match).
   Notation vis := (visible fx re_ok re_match).
-  Notation handled := (is_handled re_ok re_match).
+  Notation handled := (is_handled fx re_ok re_match).
+  Notation needed := (need_handle fx re_ok re_match).
   Notation sexcl := (spec_excluded re_ok re_match).
   Notation shandled := (spec_handled re_ok re_match).
 
@@ -277,11 +290,58 @@ Section Law.
     destruct (not_ignored_live _ _ _ Hi) as [Hs Hn]. rewrite (gate_ok_fixed g d Hg Hs Hn). reflexivity.
   Qed.
 
+  (* the two lists of the ignore-for-analysis rules are the entries of the intent, filed by their spelling *)
+  Definition lists_of (g : gconf) (i : intent) : Prop :=
+    g_handle_folder g = filter (fun p => negb (has_lua_suffix p)) (i_handle i)
+    /\ g_handle_file g = filter has_lua_suffix (i_handle i).
+
+  (* repaired (isIgnoreRelFile): how an entry was filed no longer matters *)
+  Lemma ignore_rel_lists g i rel :
+    lists_of g i -> ignore_rel re_ok re_match g rel = existsb (fun p => rule_hits re_ok re_match p rel) (i_handle i).
+  Proof.
+    intros (Hf & Hl). unfold ignore_rel, ignore_file, ignore_folder, rule_hits. rewrite Hf, Hl.
+    rewrite <- (existsb_swap (fun n p => pm n p) (names_of rel) (i_handle i)).
+    apply existsb_ext_eq. intros n. symmetry. exact (existsb_filter_split (pm n) has_lua_suffix (i_handle i)).
+  Qed.
+
+  (* the walk does not descend into a folder that is an ignored folder - and isIgnoreRelFile refuses every file below *)
+  Lemma pruned_is_ignored g rel :
+    existsb (ignore_folder re_ok re_match g) (ancestors rel) = true -> ignore_rel re_ok re_match g rel = true.
+  Proof.
+    intros H. apply existsb_exists in H as (d & Hin & Hd).
+    unfold ignore_rel. apply existsb_exists. exists d. split.
+    - unfold names_of. right. right. exact Hin.
+    - rewrite Hd. apply orb_true_r.
+  Qed.
+
+  (* C17_ignore_sites_agree: for EVERY configuration state (whatever put it there) and every file, the directory walk
+     scans the file iff the per-file predicate accepts it *)
+  Theorem sites_agree g rel : fx_sites fx = true -> handled g rel = needed g rel.
+  Proof.
+    intros Hfx. unfold is_handled, need_handle, walk_skips_file. rewrite Hfx.
+    destruct (existsb (ignore_folder re_ok re_match g) (ancestors rel)) eqn:Hp; cbn [negb andb]; [|reflexivity].
+    rewrite (pruned_is_ignored g rel Hp). reflexivity.
+  Qed.
+
+  Lemma needed_fixed g i rel : fx_sites fx = true -> lists_of g i -> needed g rel = shandled i rel.
+  Proof.
+    intros Hfx Hl. unfold need_handle, spec_handled. rewrite Hfx, (ignore_rel_lists g i rel Hl). reflexivity.
+  Qed.
+
+  Lemma handled_fixed g i rel : fx_sites fx = true -> lists_of g i -> handled g rel = shandled i rel.
+  Proof. intros Hfx Hl. rewrite (sites_agree g rel Hfx). apply needed_fixed; assumption. Qed.
+
+  Lemma sites_ok_fixed g i rel : fx_sites fx = true -> lists_of g i -> sites_ok_at fx re_ok re_match g i rel = true.
+  Proof.
+    intros Hfx Hl. unfold sites_ok_at. rewrite (handled_fixed g i rel Hfx Hl), (needed_fixed g i rel Hfx Hl).
+    rewrite eqb_reflx. reflexivity.
+  Qed.
+
   (* the final configuration state does what the intent says, up to the three extra conditions *)
   Definition realises (g : gconf) (i : intent) : Prop :=
     (forall root d, type_ok d = true ->
        vis g root d = negb (sexcl i root d) && gate_ok fx g d && prereq_ok fx re_ok re_match g root d && open_ok g d)
-    /\ (forall rel, handled g rel = shandled i rel).
+    /\ lists_of g i.
 
   (* ... and the white list admits whatever the intent does not exclude *)
   Definition opens (g : gconf) (i : intent) : Prop :=
@@ -309,10 +369,8 @@ Section Law.
     intros Hwf (_ & Hft0 & _ & _) H. split.
     - intros root d Hty. rewrite visible_unfold. unfold spec_excluded.
       rewrite (client_choke g0 c g Hwf Hft0 H) by exact Hty. reflexivity.
-    - intros rel.
-      destruct (handle_flags_inv g0 c g Hwf H) as (m & fl & Hf & _ & _ & _ & _ & Hhf & Hhl & _ & _ & _ & _).
-      unfold is_handled, spec_handled, ignore_folder, ignore_file, intent_of_client. cbn [i_handle].
-      rewrite Hhf, Hhl. reflexivity.
+    - destruct (handle_flags_inv g0 c g Hwf H) as (m & fl & Hf & _ & _ & _ & _ & Hhf & Hhl & _ & _ & _ & _).
+      split; [exact Hhf|exact Hhl].
   Qed.
 
   Lemma passes_client g0 c g :
@@ -371,7 +429,7 @@ Section Law.
       match goal with |- context [gate_ok fx ?g d] => generalize (gate_ok fx g d) end. intros x.
       match goal with |- context [prereq_ok fx re_ok re_match ?g root d] => generalize (prereq_ok fx re_ok re_match g root d) end. intros y.
       btauto.
-    - intros rel. reflexivity.
+    - split; reflexivity.
   Qed.
 
   Lemma passes_json g0 j g :
@@ -551,17 +609,19 @@ Section Sessions.
   Theorem filter_law_guarded root files j c lr cs s :
     json_wf fx j = true -> client_wf c = true -> forallb client_wf cs = true ->
     session fx re_ok j c lr cs = Ok s ->
+    walk_ok fx re_ok re_match (s_g s) (session_intent j c cs) files = true ->
     forallb (diag_guard fx re_ok re_match (s_g s) (session_intent j c cs) root)
-            (raw (filter (is_handled re_ok re_match (s_g s)) files)) = true ->
+            (raw (filter (is_handled fx re_ok re_match (s_g s)) files)) = true ->
     shown fx re_ok re_match raw (s_g s) root files
       = spec_shown re_ok re_match raw (session_intent j c cs) root files.
   Proof.
-    intros Hj Hwf Hwfs H Hg.
+    intros Hj Hwf Hwfs H Hw Hg.
     pose proof (session_realises j c lr cs s Hj Hwf Hwfs H) as Hr.
     unfold shown, spec_shown.
-    assert (Hf : filter (is_handled re_ok re_match (s_g s)) files
+    assert (Hf : filter (is_handled fx re_ok re_match (s_g s)) files
                  = filter (spec_handled re_ok re_match (session_intent j c cs)) files).
-    { apply filter_ext. intros rel. apply (proj2 Hr). }
+    { apply filter_ext_in. intros rel Hin. unfold walk_ok in Hw. rewrite forallb_forall in Hw.
+      apply eqb_prop. apply Hw. exact Hin. }
     rewrite <- Hf. apply filter_ext_in. intros d Hin.
     rewrite forallb_forall in Hg. apply guarded_visible; [exact Hr|apply Hg; exact Hin].
   Qed.
@@ -569,20 +629,20 @@ Section Sessions.
   (* the filter law of the repaired code: no guard on the configuration; the only premise is that the analysis reports
      diagnostics of the existing types 1..29 *)
   Theorem filter_law root files j c lr cs s :
-    gate_covers fx = true -> fx_coupled fx = true -> fx_dead fx = true -> fx_dup fx = true ->
+    gate_covers fx = true -> fx_coupled fx = true -> fx_dead fx = true -> fx_dup fx = true -> fx_sites fx = true ->
     client_wf c = true -> forallb client_wf cs = true ->
     session fx re_ok j c lr cs = Ok s ->
     forallb type_ok (raw (filter (spec_handled re_ok re_match (session_intent j c cs)) files)) = true ->
     shown fx re_ok re_match raw (s_g s) root files
       = spec_shown re_ok re_match raw (session_intent j c cs) root files.
   Proof.
-    intros Hg Hc Hd Hu Hwf Hwfs H Hty.
+    intros Hg Hc Hd Hu Hsi Hwf Hwfs H Hty.
     assert (Hj : json_wf fx j = true) by (unfold json_wf; rewrite Hu; reflexivity).
     pose proof (session_realises j c lr cs s Hj Hwf Hwfs H) as Hr.
     unfold shown, spec_shown.
-    assert (Hf : filter (is_handled re_ok re_match (s_g s)) files
+    assert (Hf : filter (is_handled fx re_ok re_match (s_g s)) files
                  = filter (spec_handled re_ok re_match (session_intent j c cs)) files).
-    { apply filter_ext. intros rel. apply (proj2 Hr). }
+    { apply filter_ext. intros rel. apply handled_fixed; [exact Hsi|exact (proj2 Hr)]. }
     rewrite Hf. apply filter_ext_in. intros d Hin.
     rewrite forallb_forall in Hty.
     apply (session_visible_exact root j c lr cs s d); try assumption. apply Hty. exact Hin.
@@ -632,7 +692,8 @@ Section Routes.
 
   Definition obs_eq (g1 g2 : gconf) : Prop :=
     (forall root d, visible fx re_ok re_match g1 root d = visible fx re_ok re_match g2 root d)
-    /\ (forall rel, is_handled re_ok re_match g1 rel = is_handled re_ok re_match g2 rel).
+    /\ (forall rel, is_handled fx re_ok re_match g1 rel = is_handled fx re_ok re_match g2 rel)
+    /\ (forall rel, need_handle fx re_ok re_match g1 rel = need_handle fx re_ok re_match g2 rel).
 
   Lemma visible_hidden g root d : g_show g = false -> visible fx re_ok re_match g root d = false.
   Proof. intros H. unfold visible, is_ignore_error_file. rewrite H. reflexivity. Qed.
@@ -650,9 +711,16 @@ Section Routes.
 
   Lemma is_handled_fields g1 g2 rel :
     g_handle_folder g1 = g_handle_folder g2 -> g_handle_file g1 = g_handle_file g2 ->
-    is_handled re_ok re_match g1 rel = is_handled re_ok re_match g2 rel.
+    is_handled fx re_ok re_match g1 rel = is_handled fx re_ok re_match g2 rel.
   Proof.
-    intros H1 H2. unfold is_handled, ignore_folder, ignore_file. rewrite H1, H2. reflexivity.
+    intros H1 H2. unfold is_handled, walk_skips_file, ignore_rel, ignore_folder, ignore_file. rewrite H1, H2. reflexivity.
+  Qed.
+
+  Lemma need_handle_fields g1 g2 rel :
+    g_handle_folder g1 = g_handle_folder g2 -> g_handle_file g1 = g_handle_file g2 ->
+    need_handle fx re_ok re_match g1 rel = need_handle fx re_ok re_match g2 rel.
+  Proof.
+    intros H1 H2. unfold need_handle, ignore_rel, ignore_folder, ignore_file. rewrite H1, H2. reflexivity.
   Qed.
 
   (* the white list after a client configuration with the master switch on *)
@@ -679,7 +747,7 @@ Section Routes.
       + apply visible_fields; try congruence.
         rewrite (client_open_types a g1 c fl Hca Hf Hall1), (client_open_types b g2 c fl Hcb Hf Hall2). reflexivity.
       + rewrite !visible_hidden by assumption. reflexivity.
-    - intros rel. apply is_handled_fields; congruence.
+    - split; intros rel; [apply is_handled_fields|apply need_handle_fields]; congruence.
   Qed.
 
   Lemma from_client_json_obs g1 g3 c :
@@ -705,7 +773,7 @@ Section Routes.
         * congruence.
       + rewrite !visible_hidden; [reflexivity| |assumption].
         cbn [g_show j_show to_json]. rewrite Hf. reflexivity.
-    - intros rel. apply is_handled_fields;
+    - split; intros rel; [apply is_handled_fields|apply need_handle_fields];
         cbn [g_handle_folder g_handle_file j_ignore_handle to_json]; congruence.
   Qed.
 
@@ -733,7 +801,7 @@ Section Routes.
   Lemma obs_eq_shown raw g1 g2 root files :
     obs_eq g1 g2 -> shown fx re_ok re_match raw g1 root files = shown fx re_ok re_match raw g2 root files.
   Proof.
-    intros (Hv & Hh). unfold shown.
+    intros (Hv & Hh & _). unfold shown.
     rewrite (filter_ext _ _ Hh). apply filter_ext. intros d. apply Hv.
   Qed.
 
@@ -828,10 +896,10 @@ Section Faults.
   Qed.
 
   (* where no pattern is malformed the regexp repair changes nothing *)
-  Lemma handle_flags_fixed_same a b d e g c :
+  Lemma handle_flags_fixed_same a b d e si g c :
     forallb re_ok (c_ignore_err c) = true ->
-    handle_flags {| fx_regexp := false; fx_gate := a; fx_coupled := b; fx_dead := d; fx_dup := e |} re_ok g c
-    = handle_flags {| fx_regexp := true; fx_gate := a; fx_coupled := b; fx_dead := d; fx_dup := e |} re_ok g c.
+    handle_flags {| fx_regexp := false; fx_gate := a; fx_coupled := b; fx_dead := d; fx_dup := e; fx_sites := si |} re_ok g c
+    = handle_flags {| fx_regexp := true; fx_gate := a; fx_coupled := b; fx_dead := d; fx_dup := e; fx_sites := si |} re_ok g c.
   Proof. intros H. unfold handle_flags, compile_all. cbn [fx_regexp fx_dead]. rewrite H. reflexivity. Qed.
 End Faults.
 
@@ -871,11 +939,12 @@ Section Plain.
     json_wf fx j = true -> client_wf c = true -> forallb client_wf cs = true ->
     session fx re_ok j c lr cs = Ok s ->
     special_gate_ok fx (s_g s) = true ->
-    forallb plain_diag (raw (filter (is_handled re_ok re_match (s_g s)) files)) = true ->
+    walk_ok fx re_ok re_match (s_g s) (session_intent j c cs) files = true ->
+    forallb plain_diag (raw (filter (is_handled fx re_ok re_match (s_g s)) files)) = true ->
     shown fx re_ok re_match raw (s_g s) root files
       = spec_shown re_ok re_match raw (session_intent j c cs) root files.
   Proof.
-    intros Hj Hwf Hwfs H Hg Hp. apply (filter_law_guarded fx _ _ _ _ _ _ _ lr); try assumption.
+    intros Hj Hwf Hwfs H Hg Hw Hp. apply (filter_law_guarded fx _ _ _ _ _ _ _ lr); try assumption.
     rewrite forallb_forall in *. intros d Hin. apply plain_guard; [exact Hg|apply Hp; exact Hin].
   Qed.
 End Plain.
@@ -890,14 +959,47 @@ Definition full_for (fx : fixes) : Prop :=
     client_wf c = true -> forallb client_wf cs = true ->
     forallb type_ok (raw (filter (spec_handled re_ok re_match (session_intent j c cs)) files)) = true ->
     exists s, session fx re_ok j c local_run cs = Ok s
-      /\ shown fx re_ok re_match raw (s_g s) root files = spec_shown re_ok re_match raw (session_intent j c cs) root files.
+      /\ shown fx re_ok re_match raw (s_g s) root files = spec_shown re_ok re_match raw (session_intent j c cs) root files
+      /\ (forall rel, need_handle fx re_ok re_match (s_g s) rel = spec_handled re_ok re_match (session_intent j c cs) rel).
 
 Theorem full_deployed : full_for deployed.
 Proof.
   intros re_ok re_match raw root files j c lr cs Hwf Hwfs Hty.
   destruct (fixed_never_faults re_ok deployed j c lr cs eq_refl) as (s & Hs).
-  exists s. split; [exact Hs|].
-  apply (filter_law deployed re_ok re_match raw root files j c lr cs s); auto.
+  exists s. split; [exact Hs|]. split.
+  - apply (filter_law deployed re_ok re_match raw root files j c lr cs s); auto.
+  - intros rel. apply needed_fixed; [reflexivity|].
+    exact (proj2 (session_realises deployed re_ok re_match j c lr cs s eq_refl Hwf Hwfs Hs)).
+Qed.
+
+(* the two sites follow the intent of the session (repaired code; any route, any history) *)
+Theorem session_sites_exact fx re_ok re_match j c lr cs s rel :
+  fx_dup fx = true -> fx_sites fx = true -> client_wf c = true -> forallb client_wf cs = true ->
+  session fx re_ok j c lr cs = Ok s ->
+  is_handled fx re_ok re_match (s_g s) rel = spec_handled re_ok re_match (session_intent j c cs) rel
+  /\ need_handle fx re_ok re_match (s_g s) rel = spec_handled re_ok re_match (session_intent j c cs) rel.
+Proof.
+  intros Hu Hsi Hwf Hwfs H.
+  assert (Hj : json_wf fx j = true) by (unfold json_wf; rewrite Hu; reflexivity).
+  pose proof (proj2 (session_realises fx re_ok re_match j c lr cs s Hj Hwf Hwfs H)) as Hl.
+  split; [apply handled_fixed|apply needed_fixed]; assumption.
+Qed.
+
+(* ... and the class of the defect is empty *)
+Lemma sites_class_empty fx re_ok re_match j c lr cs s files :
+  fx_dup fx = true -> fx_sites fx = true -> client_wf c = true -> forallb client_wf cs = true ->
+  session fx re_ok j c lr cs = Ok s ->
+  cls_ignore_sites fx re_ok re_match (s_g s) (session_intent j c cs) files = false
+  /\ walk_ok fx re_ok re_match (s_g s) (session_intent j c cs) files = true.
+Proof.
+  intros Hu Hsi Hwf Hwfs H.
+  assert (Hj : json_wf fx j = true) by (unfold json_wf; rewrite Hu; reflexivity).
+  pose proof (proj2 (session_realises fx re_ok re_match j c lr cs s Hj Hwf Hwfs H)) as Hl.
+  split.
+  - unfold cls_ignore_sites. induction files as [|f files IH]; cbn [existsb]; [reflexivity|].
+    rewrite (sites_ok_fixed fx re_ok re_match _ _ f Hsi Hl). exact IH.
+  - unfold walk_ok. apply forallb_forall. intros f _.
+    rewrite (handled_fixed fx re_ok re_match _ _ f Hsi Hl). apply eqb_reflx.
 Qed.
 
 (* ---------- witnesses (closed terms, evaluated in Properties/C17.v) ---------- *)
@@ -943,6 +1045,30 @@ Theorem full_round1_refuted : ~ full_for code_round1.
 Proof.
   intros H.
   destruct (H re_all re_none (fun _ => [mk_diag a_lua 9]) [] [a_lua] None w_gate false [] eq_refl eq_refl eq_refl)
-    as (s & Hs & Heq).
+    as (s & Hs & Heq & _).
+  vm_compute in Hs. apply Ok_inj in Hs. subst s. vm_compute in Heq. discriminate.
+Qed.
+
+(* ---- the two ignore sites: witness = the documented example of docs/manual/config.md ---- *)
+
+Definition p_port_on : path := [112; 111; 114; 116; 47; 111; 110; 46; 42; 108; 117; 97].         (* "port/on.*lua" *)
+Definition p_tests : path := [116; 101; 115; 116; 115; 47].                                        (* "tests/" *)
+Definition one_lua : path := [111; 110; 101; 46; 108; 117; 97].                                    (* "one.lua" *)
+Definition port_onxx : path := [112; 111; 114; 116; 47; 111; 110; 120; 120; 46; 108; 117; 97].     (* "port/onxx.lua" *)
+Definition tests_t : path := p_tests ++ [116; 46; 108; 117; 97].                                   (* "tests/t.lua" *)
+(* a regexp engine as far as the witness needs one: "port/on.*lua" matches the two spellings of port/onxx.lua (what
+   Go's regexp says too: leg c17.re), nothing else matches as a regexp *)
+Definition re_port_on : path -> path -> bool :=
+  fun p s => beq_bytes p p_port_on && (beq_bytes s port_onxx || beq_bytes s (slash :: port_onxx)).
+Definition w_sites : client_cfg := mk_client [] [p_port_on; p_tests; one_lua] [].
+Definition w_sites_files : list path := [a_lua; one_lua; port_onxx; tests_t].
+
+(* the full statement was still false before the two sites were made one: IgnoreFileOrDir ["port/on.*lua"; "tests/";
+   "one.lua"], workspace {a.lua, one.lua, port/onxx.lua, tests/t.lua}: port/onxx.lua is scanned and its diagnostic shown *)
+Theorem full_round2_refuted : ~ full_for code_round2.
+Proof.
+  intros H.
+  destruct (H re_all re_port_on (fun fs => map (fun f => mk_diag f 1) fs) [] w_sites_files None w_sites false []
+              eq_refl eq_refl eq_refl) as (s & Hs & Heq & _).
   vm_compute in Hs. apply Ok_inj in Hs. subst s. vm_compute in Heq. discriminate.
 Qed.
